@@ -61,7 +61,7 @@ def run_cache_overlay(ctx, race):
     rc, log = vlib.go_test_overlay(ctx, './internal/cache',
                                    {'internal/cache/zz_verif_c01_test.go': os.path.join(vlib.VERIF, 'harness', 'overlay', 'c01_test.go')},
                                    'TestVerifC01', args=[out, str(ctx.seed), ctx.tier], race=race, timeout=1200)
-    if rc != 0 and 'DATA RACE' in log:
+    if rc != 0 and ('DATA RACE' in log or 'concurrent map' in log):
         return [], log
     if rc != 0:
         if re.search(r'\[build failed\]|cannot find package|undefined:', log):
@@ -128,6 +128,9 @@ def run(ctx):
             raise RuntimeError('c01 harness (GOMAXPROCS=%d) failed rc=%s: %s' % (p, pr.returncode, log[-3000:]))
         for l in open(out):
             o = json.loads(l)
+            if o.get('kind') == 'timing':
+                phases['harness_gomaxprocs_%d' % o['procs']] = round(o['seconds'], 1)
+                continue
             wid = o['ws']['id']
             if wid not in by_ws:
                 by_ws[wid] = {}
